@@ -1059,8 +1059,9 @@ class StubsStringGenerator:
         qname:
             The qualified name of a module/class/etc.
         """
-        if import_qname == "":  # pragma: no cover
-            raise ValueError("Type has no import source.")
+        if import_qname == "":
+            # A name the type checker could not resolve (e.g. an un-annotated "return undefined_name"): nothing to import
+            return
 
         qname_parts = import_qname.split(".")
         if (qname_parts[0] == "builtins" and len(qname_parts) == 2) or import_qname == "typing.Any":
